@@ -74,7 +74,7 @@ def run(ctx, R):
         sig_eq = T.eq(T.mk_slice(inp, I(0), I(12)), ('bytes', tables.V2_SIG))
         okouts = [o for o in outs if match(o['ret'], OK(ANY))]
         for o in okouts:
-            if sig_eq not in o['pc']:
+            if sig_eq not in o['pc'] and not solver.entails(o['pc'], sig_eq):
                 R.inst('C06.X', 'v2-accept-requires-signature', False, expected=sig_eq, found=pc_text(o['pc'], 10), entry=v2)
         R.inst('C06.X', 'v2-accept-requires-signature', True, expected=sig_eq, found='%d accepting outcomes all guarded' % len(okouts), entry=v2)
         R.inst('C06.X', 'first-bytes-differ', tables.V2_SIG[0] != tables.V1_PREFIX[0], expected='0x0D != "P"', found='%#x vs %#x' % (tables.V2_SIG[0], tables.V1_PREFIX[0]), nontrivial=False)
